@@ -32,6 +32,14 @@ type c12mon struct {
 	worst      time.Duration
 	now        time.Duration
 	since      []string // client packets since the last broker-bound packet
+	clientK    time.Duration // the keep-alive the client announced last (its obligation while active)
+}
+
+func (m *c12mon) k() time.Duration {
+	if m.clientK == 0 {
+		return c12K * time.Second
+	}
+	return m.clientK
 }
 
 func (m *c12mon) After(g *gw.GW, ev string, sn []gw.SNOut, mq []gw.MQOut, setup bool) []explore.Violation {
@@ -58,7 +66,7 @@ func (m *c12mon) After(g *gw.GW, ev string, sn []gw.SNOut, mq []gw.MQOut, setup 
 		case "T":
 			m.ticks++
 		case "C":
-			if m.view == "active" && now-m.lastClient > c12K*time.Second {
+			if m.view == "active" && now-m.lastClient > m.k() {
 				m.broke = true // too late: the client did not send anything for a whole keep-alive period
 			}
 			if m.view == "asleep" && now-m.sleepFrom > m.sleepDur {
@@ -73,13 +81,14 @@ func (m *c12mon) After(g *gw.GW, ev string, sn []gw.SNOut, mq []gw.MQOut, setup 
 				m.sleepFrom = now // awake for the flush, asleep again for the announced duration
 			case st.sn.Type == refsn.CONNECT:
 				m.view = "active"
+				m.clientK = time.Duration(st.sn.Duration) * time.Second
 			}
 		}
 	}
 	// obligations of the client
 	switch m.view {
 	case "active":
-		if now-m.lastClient > c12K*time.Second {
+		if now-m.lastClient > m.k() {
 			m.broke = true
 		}
 	case "asleep":
@@ -110,6 +119,10 @@ func (m *c12mon) viol(gap time.Duration, ev string) explore.Violation {
 			how += ":client-sent-only-REGISTER/REGACK"
 		}
 	}
+	if m.view == "active" && m.k() != c12K*time.Second {
+		// the client woke up with a CONNECT announcing another keep-alive and keeps that one
+		how = "active:keep-alive-announced-by-wake-up-connect-unknown-to-broker"
+	}
 	if m.view == "asleep" {
 		if m.sleepDur > c12K*time.Second {
 			how += ":duration>keepalive"
@@ -118,11 +131,11 @@ func (m *c12mon) viol(gap time.Duration, ev string) explore.Violation {
 		}
 	}
 	return explore.Violation{Sig: "broker-silence-exceeds-1.5-keepalive:" + how,
-		Detail: fmt.Sprintf("gateway sent the broker nothing for %v (keep-alive %d s, limit 6 s) although the client met its obligations (view %s, sleep duration %v; event %s)", gap, c12K, m.view, m.sleepDur, gw.Label(ev))}
+		Detail: fmt.Sprintf("gateway sent the broker nothing for %v (keep-alive of the MQTT CONNECT %d s, limit 6 s) although the client met its obligations (view %s, keep-alive announced last %v, sleep duration %v; event %s)", gap, c12K, m.view, m.k(), m.sleepDur, gw.Label(ev))}
 }
 
 func (m *c12mon) Key() string {
-	return fmt.Sprintf("view=%s dc=%v db=%v sl=%v/%v broke=%t ticks>=max:%t since=%v", m.view, m.lastClientAgo(), m.lastBrokerAgo(), m.sleepAgo(), m.sleepDur, m.broke, m.ticks >= m.maxTicks, m.since)
+	return fmt.Sprintf("view=%s dc=%v db=%v sl=%v/%v broke=%t ticks>=max:%t since=%v k=%v", m.view, m.lastClientAgo(), m.lastBrokerAgo(), m.sleepAgo(), m.sleepDur, m.broke, m.ticks >= m.maxTicks, m.since, m.k())
 }
 
 // the key uses offsets from now, not absolute instants, so that the search can reach a fixpoint
@@ -153,7 +166,7 @@ func (m *c12mon) Next(g *gw.GW) []string {
 	case "asleep":
 		a = append(a, with("PINGREQ(wake)", gw.Pingreq("c1")), with("CONNECT", gw.Connect("c1", c12K, false, false)))
 		// a wake-up CONNECT is not forwarded: the broker keeps the keep-alive of the session's MQTT CONNECT, whatever
-		// this one announces (the client of these histories goes on meeting the shorter, original period)
+		// this one announces; the client of these histories meets the period it announced last
 		a = append(a, with("CONNECT(keep-alive 10)", gw.Connect("c1", 10, false, false)))
 		a = append(a, with("DISCONNECT(6) again", gw.Disconnect(6)), with("DISCONNECT(10) again", gw.Disconnect(10)))
 	}
@@ -188,7 +201,7 @@ func TestC12(t *testing.T) {
 	}
 	rep := explore.NewReport("C12", "model_checking")
 	gw.BFSCheck(rep, specs, gw.BFSOpts{Test: "TestC12"}, 240, 1500)
-	rep.Coverage["rule"] = "BFS over timed histories on a 1 s grid (horizon 16 s, thorough 28 s; keep-alive 4 s): at every tick the client does nothing, sends PINGREQ, PUBLISH q0, DISCONNECT(2|6|10), a wake-up PINGREQ, a wake-up CONNECT (same keep-alive, or announcing 10 s while the client goes on meeting the 4 s the broker knows) or a renewed DISCONNECT(6|10); the broker answers CONNECT and PINGREQ at once; histories in which the client breaks its own obligation (a packet within every keep-alive while active, a wake-up within every announced sleep duration) are pruned; at every tick and at every broker-bound packet the time since the previous broker-bound packet must be <= 6 s; state key uses time offsets, not absolute time"
+	rep.Coverage["rule"] = "BFS over timed histories on a 1 s grid (horizon 16 s, thorough 28 s; keep-alive 4 s): at every tick the client does nothing, sends PINGREQ, PUBLISH q0, DISCONNECT(2|6|10), a wake-up PINGREQ, a wake-up CONNECT (same keep-alive, or announcing 10 s, which then is the client's obligation while active) or a renewed DISCONNECT(6|10); the broker answers CONNECT and PINGREQ at once; histories in which the client breaks its own obligation (a packet within every keep-alive while active, a wake-up within every announced sleep duration) are pruned; at every tick and at every broker-bound packet the time since the previous broker-bound packet must be <= 6 s; state key uses time offsets, not absolute time"
 	rep.Assumptions = []string{"default schedule; virtual time on a 1 s grid; after a wake-up the client sleeps again for the duration it announced"}
 	rep.Finish()
 }
